@@ -370,6 +370,10 @@ func TestCreateAfterClose(t *testing.T) {
 type floodCase struct {
 	Stray int `json:"stray_packets"`
 	Procs int `json:"gomaxprocs"`
+	// Status: the status bytes of the stray packets in turn (empty: all EOM). A stray packet
+	// without EOM is the beginning of a message for a channel nobody has; what follows it on
+	// the wire for OTHER channels is not part of that message
+	Status []int `json:"stray_status,omitempty"`
 }
 
 func runFlood(c floodCase) (f *vh.Failure) {
@@ -394,7 +398,14 @@ func runFlood(c floodCase) (f *vh.Failure) {
 	}
 	ch := chans[1]
 	for i := 0; i < c.Stray; i++ {
-		e.pipe.Feed(rc.Packet{Type: rc.BufResponse, Channel: uint16(9 + i%3), Status: rc.StatEOM, Body: []byte{rc.TokDone, 0, 0, 0, 0, 0, 0, 0, 0}}.Bytes())
+		st := byte(rc.StatEOM)
+		if len(c.Status) > 0 {
+			st = byte(c.Status[i%len(c.Status)])
+		}
+		e.pipe.Feed(rc.Packet{Type: rc.BufResponse, Channel: uint16(9 + i%3), Status: st, Body: []byte{rc.TokDone, 0, 0, 0, 0, 0, 0, 0, 0}}.Bytes())
+	}
+	if len(c.Status) > 0 {
+		vh.Label("flood:stray-packets-without-eom")
 	}
 	time.Sleep(time.Millisecond)
 	e.pipe.Feed(retPacket(ch.VerifID(), 42, true))
@@ -441,7 +452,10 @@ func runFlood(c floodCase) (f *vh.Failure) {
 
 func TestStrayPacketFlood(t *testing.T) {
 	gen := func(rt *rapid.T) floodCase {
-		c := floodCase{Stray: rapid.SampledFrom([]int{1, 9, 10, 11, 12, 20, 40}).Draw(rt, "stray"), Procs: rapid.SampledFrom([]int{1, 4}).Draw(rt, "procs")}
+		c := floodCase{Stray: rapid.SampledFrom([]int{1, 2, 9, 10, 11, 12, 20, 40}).Draw(rt, "stray"), Procs: rapid.SampledFrom([]int{1, 4}).Draw(rt, "procs")}
+		if rapid.Bool().Draw(rt, "status?") {
+			c.Status = rapid.SliceOfN(rapid.SampledFrom([]int{0, 0, 1, 2, 8, 9}), 1, 3).Draw(rt, "status")
+		}
 		vh.Sample("flood", c)
 		return c
 	}
